@@ -162,8 +162,8 @@ Section CryptLen.
     intros h2 Hl2. cbn. split; [exact E|]. unfold take. rewrite firstn_length. lia.
   Qed.
 
-  Theorem from_password_rc4_total level key_bits m d id pass :
-    never_crashes (CM.from_password_rc4 md5 level key_bits m d id pass).
+  Theorem from_password_rc4_total level key_bits m ms d id pass :
+    never_crashes (CM.from_password_rc4 md5 level key_bits m ms d id pass).
   Proof.
     eapply post_never with (Q := fun _ => True). unfold CM.from_password_rc4.
     destruct (key_bits / 8 =? 0) eqn:E0; [cbn; exact I|]. apply N.eqb_neq in E0.
@@ -182,24 +182,6 @@ Section CryptLen.
     intros okk _. destruct okk; cbn; exact I.
   Qed.
 
-  Lemma crypt_method_post d : post (fun _ => True) (CM.crypt_method d).
-  Proof.
-    unfold CM.crypt_method.
-    repeat (match goal with
-            | |- post _ (if ?c then _ else _) => destruct c
-            | |- post _ (match ?x with _ => _ end) => destruct x
-            | |- post _ (bind ?r _) => destruct r eqn:?; cbn [bind]
-            end); cbn; try exact I; try discriminate.
-    all: exfalso; destruct (CM.cf_length c) as [n|]; [destruct (8 * n <? 4294967296)|]; discriminate.
-  Qed.
-
-  (* the whole of Decoder::from_password for the RC4 revisions (R <= 4), whatever the other primitives do *)
-  Theorem from_password_r234_total sha256 sha384 sha512 aes_enc aes_dec prep fuel d id pass : CM.d_r d <= 4 ->
-    never_crashes (CM.from_password md5 sha256 sha384 sha512 aes_enc aes_dec prep fuel d id pass).
-  Proof.
-    intros Hr. eapply post_never with (Q := fun _ => True). unfold CM.from_password.
-    eapply post_bind; [apply crypt_method_post|]. intros [key_bits m] _.
-    destruct (negb ((2 <=? CM.d_r d) && (CM.d_r d <=? 6))); [cbn; exact I|].
-    apply N.leb_le in Hr. rewrite Hr. apply never_post. apply from_password_rc4_total.
-  Qed.
+  (* the whole of Decoder::from_password, every revision, is the Crypt area's own theorem
+     (Crypt/SafeProofs.v: from_password_no_panic, re-exported as C14_crypt_key_length in Properties/C14.v) *)
 End CryptLen.
